@@ -87,6 +87,7 @@ pub fn gen_spec(ch: &mut Ch) -> WorldSpec {
         resources,
         clients: vec![ClientSpec { ep: 100, lanes: vec![LaneSpec { transfers, timeout_ms: 2000 }], mid0: ch.below(65536, "d.mid0") as u16, tok_seed: ch.below(1 << 32, "d.tok"), net: NetCfg::clean(1), via_proxy: false }],
         max_events: 5_000,
+        slow_app_pm: 0,
     }
 }
 
